@@ -46,9 +46,92 @@ def showWhy : Outcome → String
 
 def showOutcome (o : Outcome) : String := showList o.lines ++ ";" ++ showWhy o
 
+/-! ## sync mode: `msync<R> <kws> <global> <svcs> <ings>`
+
+* `<svcs>` comma separated `ns/name!<ann>!<flags>` (`<ann>` = `n` | `h<hex>`; flags `-`, `g` = also the
+  backend of a Gateway API route, `d` = default backend, `gd`)
+* `<ings>` `-` or comma separated `ns/name!<ann>!<params>!svc+svc`, in processing order
+* impl output: the DISTINCT outcomes of the R runs, sorted, joined by `#`; one outcome =
+  `id=<lines>/id=<lines>/...;<whys>` (backends sorted by id, `<whys>` = `-` or the sorted,
+  comma separated reasons `star@<label>` / `kw:h<hex>@<label>` of all warnings of the sync) -/
+
+def parseOptStr (s : String) : Option (Option Str) :=
+  if s = "n" then some none else (parseStr s).map some
+
+def parseNsName (s : String) : Option (String × String) :=
+  match s.splitOn "/" with
+  | [a, b] => some (a, b)
+  | _ => none
+
+def parseSvc (s : String) : Option Svc :=
+  match s.splitOn "!" with
+  | [nn, ann, fl] => do
+    let (ns, name) ← parseNsName nn
+    let ann ← parseOptStr ann
+    pure { ns := ns, name := name, ann := ann, gateway := fl.contains 'g', dflt := fl.contains 'd' }
+  | _ => none
+
+def parseIng (s : String) : Option Ing :=
+  match s.splitOn "!" with
+  | [nn, ann, par, svcs] => do
+    let (ns, name) ← parseNsName nn
+    let ann ← parseOptStr ann
+    let par ← parseOptStr par
+    pure { ns := ns, name := name, ann := ann, params := par,
+           svcs := if svcs = "-" then [] else svcs.splitOn "+" }
+  | _ => none
+
+def insertSorted (x : String) : List String → List String
+  | [] => [x]
+  | y :: ys => if x < y then x :: y :: ys else y :: insertSorted x ys
+
+def sortStrings (l : List String) : List String := l.foldr insertSorted []
+
+def dedup (l : List String) : List String :=
+  l.foldr (fun x acc => if acc.contains x then acc else x :: acc) []
+
+def showRun (outs : List (Backend × Outcome)) : String :=
+  let bks := sortStrings (outs.map fun bo => bo.1.id ++ "=" ++ showList bo.2.lines)
+  let whys := sortStrings ((outs.map fun bo => showWhy bo.2).filter (· ≠ "-"))
+  "/".intercalate bks ++ ";" ++ (if whys = [] then "-" else ",".intercalate whys)
+
+/-- `id=<lines>` entries of one implementation outcome -/
+def parseRun (s : String) : Option (List (String × List Str)) :=
+  match s.splitOn ";" with
+  | [bks, _whys] =>
+    (bks.splitOn "/").mapM fun e =>
+      match e.splitOn "=" with
+      | [id, ls] => do pure (id, ← parseList parseStr ls)
+      | _ => none
+  | _ => none
+
+def oracleRun (kws : List Str) (glob : Str) (bs : List Backend) (run : List (String × List Str)) : List String :=
+  bs.filterMap fun b =>
+    match run.lookup b.id with
+    | none => some "backend-missing-in-output"
+    | some out => oracle kws b.lanns glob out
+
+def handleSync (kws glob svcs ings impl : String) : Verdict :=
+  let g : Option Str := if glob = "n" then some [] else parseStr glob
+  match parseList parseStr kws, g, parseList parseSvc svcs, parseList parseIng ings with
+  | some kws, some glob, some svcs, some ings =>
+    let c : Cluster := { svcs := svcs, ings := ings }
+    let bs := c.backends
+    let ms := showRun (sync pureUpdater kws glob bs)
+    if impl = "PANIC" then { model := ms, agree := false, oracle := some "panic-in-updater" } else
+    match (impl.splitOn "#").mapM parseRun with
+    | some runs =>
+      let fails := sortStrings (dedup (runs.flatMap (oracleRun kws glob bs)))
+      { model := ms, agree := ms = impl,
+        oracle := if fails = [] then none else some ("+".intercalate fails),
+        trivial := kws.all (· = []) ∨ bs.all (fun b => lineToSlice (b.selValue glob) = []) }
+    | none => bad "impl-output"
+  | _, _, _, _ => bad "parse"
+
 /-- `<kind> <kws> <global> <anns>` with impl output `<lines>;<why>` -/
 def handle (args : List String) (impl : String) : Verdict :=
   match args with
+  | [_kind, kws, glob, svcs, ings] => handleSync kws glob svcs ings impl
   | [_kind, kws, glob, anns] =>
     let g : Option Str := if glob = "n" then some [] else parseStr glob
     match parseList parseStr kws, g, parseList parseAnn anns with
